@@ -195,7 +195,7 @@ def pg_arbphase(seq, V, St, w):
 PROGRAMS = {"styles": (pg_styles, 16), "eom": (pg_eom, 9), "dmm_slm": (pg_dmm_slm, 7), "xy": (pg_xy, 5), "arbphase": (pg_arbphase, 7)}
 
 REGS = ["2d", "2d-layout", "3d", "3d-layout", "mappable", "mappable-3d"]  # {2D, 3D} x {plain, from a layout, mappable}
-DEVS = ["virtual", "MockDevice", "custom-physical"]
+DEVS = ["virtual", "MockDevice", "custom-physical", "builtin-name-other-specs", "builtin-name-virtual"]
 
 
 def make_register(kind, w):
@@ -238,6 +238,10 @@ def make_dev(kind, w, program=None):
         return pulser.MockDevice
     if kind == "custom-physical":
         return dataclasses.replace(pulser.DigitalAnalogDevice, name="CustomDAD", max_atom_num=60, max_layout_filling=0.9)
+    if kind == "builtin-name-other-specs":  # keeps the name of a device shipped with pulser
+        return dataclasses.replace(pulser.DigitalAnalogDevice, max_atom_num=60, max_radial_distance=45)
+    if kind == "builtin-name-virtual":
+        return dataclasses.replace(pulser.MockDevice, max_atom_num=50, rydberg_level=60)
     raise ValueError(kind)
 
 
@@ -470,7 +474,7 @@ def run_case_prog(case):
             if vals["A"] is None:
                 return [("@expression-not-applicable", "")]
         for codec in ("abstract", "legacy"):
-            if codec == "legacy" and devkind == "custom-physical":
+            if codec == "legacy" and devkind in ("custom-physical", "builtin-name-other-specs", "builtin-name-virtual"):
                 continue
             try:
                 if codec == "abstract":
